@@ -193,6 +193,31 @@ def overload_programs(tier):
                     # through a parameter of static type A
                     fn = "function via(O o, A x) -> string { return o.f(x); }\n"
                     progs.append(("overload-via-param:%s" % "+".join(ov), base + cls + fn + "function main() -> void { O o = new O(); echo(via(o, new B())); }\n", exp))
+    # the overload set spread over two levels of a hierarchy (O declares some, O2 extends O declares the rest, optionally overriding one
+    # of O's): resolution is static over what the receiver's STATIC class can see; only a per-overload override is dynamic
+    for k in ((2, 3) if tier == "thorough" else (2,)):
+        for ov in itertools.combinations(PARAM_TYPES, k):
+            for mask in range(1, (1 << k) - 1):
+                bp = [p for i, p in enumerate(ov) if mask >> i & 1]
+                dp = [p for i, p in enumerate(ov) if not mask >> i & 1]
+                for override in (None, bp[0]):
+                    om = " ".join("public %sfunction f(%s p) -> string { return \"O.f(%s)\"; }" % ("virtual " if p == override else "", p, p) for p in bp)
+                    dm = " ".join("public function f(%s p) -> string { return \"O2.f(%s)\"; }" % (p, p) for p in dp)
+                    if override:
+                        dm += " public override function f(%s p) -> string { return \"O2.f(%s)\"; }" % (override, override)
+                    cls = "class O { public constructor() -> O = default; %s }\nclass O2 extends O { public constructor() -> O2 { super(); } %s }\n" % (om, dm)
+                    for recv, visible in (("O2 o = new O2();", list(ov)), ("O o = new O2();", bp)):
+                        for aname, aexpr in ARGS.items():
+                            if tier != "thorough" and aname in ("C", "B-holding-C", "float"):
+                                continue
+                            r = resolve(visible, ARG_STATIC[aname])
+                            if r in ("none", "ambiguous"):
+                                exp = ("reject",)
+                            else:
+                                exp = ("ok", ["%s.f(%s)" % ("O2" if (r in dp or r == override) else "O", r)])
+                            body = "A ab = new B(); B bc = new C(); %s echo(o.f(%s));" % (recv, aexpr)
+                            progs.append(("overload-split:%s/%s:%s:%s:%s" % ("+".join(bp), "+".join(dp), "ovr" if override else "plain", recv.split(" ")[0], aname),
+                                          base + cls + "function main() -> void { %s }\n" % body, exp))
     return progs
 
 
